@@ -1,4 +1,5 @@
 import EV.Proofs.System
+import EV.Props.C07carrier
 
 /-!
 # C07 — subscribers converge on the true status
